@@ -629,7 +629,12 @@ func (s *session) verifySelect(msg *Message, checkTooHigh bool, checkTooLow bool
 		return reject
 	}
 
-	switch s.stateMachine.State.(type) {
+	currentState := s.stateMachine.State
+	if pending, ok := currentState.(pendingTimeout); ok {
+		// A test request pending during recovery wraps the resend state.
+		currentState = pending.sessionState
+	}
+	switch currentState.(type) {
 	case resendState:
 		//Don't check staleness of a replay
 	default:
